@@ -14,7 +14,7 @@ import socket as _real
 from . import core, simnet
 
 SYMBOLS = ["ok", "ok-close", "refuse", "close-before-reply", "reset", "4xx-len", "5xx-len", "5xx-nolen-close",
-           "bodiless", "truncated", "empty-200", "nonjson-200"]
+           "bodiless", "bodiless-open", "truncated", "empty-200", "nonjson-200"]
 FAULTS = [s for s in SYMBOLS if s != "ok"]
 
 
@@ -223,6 +223,10 @@ class Peer(object):
             return False
         if sym == "bodiless":
             self.send_response(conn, 204, "No Content", b"", length=False)
+            return True
+        if sym == "bodiless-open":
+            # a status with neither body nor length, and the peer keeps the connection open
+            conn.sendall(b"HTTP/1.1 502 Bad Gateway\r\nContent-Type: text/plain\r\n\r\n")
             return True
         if sym == "truncated":
             full = body or b'{"jsonrpc": "2.0", "id": 1, "result": "x"}'
